@@ -21,7 +21,7 @@ LEVELS = {'C18': 'exploration'}
 WALL_LIMIT = {('C18', 'quick'): 180, ('C18', 'thorough'): 180}
 SHRINK = {'C18': (45, 60)}
 PROBES = {'C18': web.PROBES['C18'] + ['crawl_level', 'crawl.robots_perpetual_5xx', 'crawl.robots_reset', 'crawl.robots_ok', 'crawl.robots_redirect_loop', 'crawl.robots_redirect_chain', 'crawl.perpetual_5xx', 'crawl.reset', 'crawl.refused', 'crawl.stall', 'crawl.redirect_loop', 'crawl.partial_body', 'crawl.partial_body_small',
-                                     'crawl.tries_exhausted', 'crawl.several_starts', 'crawl.waitretry', 'crawl.retry_connrefused', 'crawl.concurrency>1']}
+                                     'crawl.tries_exhausted', 'crawl.several_starts', 'crawl.waitretry', 'crawl.retry_connrefused', 'crawl.concurrency>1', 'crawl.with_scope_options']}
 INFO = {'C18': dict(web.INFO['C18'], rule=web.INFO['C18']['rule'] + ' ; crawl level: site with 1..3 perpetually failing URLs (kind drawn) x --tries '
                     '{1,2,3,5,7,10} x 1..4 start URLs x --max-redirect x --retry-connrefused x --waitretry x concurrency; visits are identified by the item try count '
                     'seen at the server')}
@@ -73,6 +73,12 @@ def run(tape, prop, tier):
             if robots_mode != 'ok':
                 r.faults['crawl.robots_' + robots_mode] += 1
         opts = {'robots': bool(robots_mode), 'recursive': True, 'level': 'inf', 'tries': tries, 'max_redirect': max_redirect}
+        # scope options that keep every URL of this one-host site in scope: the limits must hold whichever other rules are installed
+        for key, val in (('hostnames', ['site.test']), ('exclude_hostnames', ['other.test']), ('domains', ['site.test']),
+                         ('exclude_domains', ['other.test']), ('reject_regex', 'ZZZ-no-such-url'), ('exclude_directories', ['/zzz'])):
+            if tape.chance(1, 5, 'scope.' + key):
+                opts[key] = val
+                r.probes['crawl.with_scope_options'] += 1
         extra = ['--timeout', '30', '--waitretry', str(waitretry)]
         if retry_refused:
             extra.append('--retry-connrefused')
